@@ -1074,6 +1074,9 @@ typedef struct
     short extendedMasterSecret;           /* was the extension used? */
     unsigned char clientAuthed;           /* was the client authenticated when
                                              the session was established? */
+    unsigned char invalidated;            /* a connection running on this entry
+                                             ended with an error: never resumable
+                                             again, whoever still holds it */
     psTime_t startTime;
     int32 inUse;
     DLListEntry chronList;
